@@ -249,6 +249,36 @@ func (e *ethEnv) packErcRedeem(amount *big.Int, token ethcmn.Address) []byte {
 	return d
 }
 
+// shadowGasPrice returns a gas price whose big-endian bytes are a complete call of `method` of the ABI `src`
+// with the given arguments (selector followed by the packed arguments). The transaction stays a well-formed
+// legacy transaction (RLP puts no limit on the length of an integer, the first selector byte is not zero), but
+// in the raw bytes the selector now occurs BEFORE the real call data: a parser that looks for the selector in
+// the hex of the whole transaction reads these arguments instead of the ones in the call data.
+func (e *ethEnv) shadowGasPrice(src, method string, args ...interface{}) *big.Int {
+	a := e.s.abiOf(src)
+	if a == nil {
+		return nil
+	}
+	d, err := a.Pack(method, args...)
+	if err != nil || len(d) < 4 || d[0] == 0 {
+		return nil
+	}
+	return new(big.Int).SetBytes(d)
+}
+
+// ethOtherAmount draws a positive amount different from amt: between 10% and 90% of amt or (when that is still
+// at most max) between 110% and 190% of it (never an exact multiple: a credit of twice the amount reads as a second mint).
+func ethOtherAmount(r interface{ Intn(int) int }, amt, max *big.Int) *big.Int {
+	x := ethFrac(r, amt, 110, 190)
+	if r.Intn(2) == 0 || x.Cmp(max) > 0 {
+		x = ethFrac(r, amt, 10, 90)
+	}
+	if x.Sign() <= 0 || x.Cmp(amt) == 0 {
+		x = new(big.Int).Add(amt, big.NewInt(1))
+	}
+	return x
+}
+
 func (e *ethEnv) garbage() []byte {
 	b := make([]byte, 1+e.c.Rng.Intn(150))
 	for i := range b {
@@ -788,7 +818,7 @@ func (e *ethEnv) newErcLock() {
 	if amt.Sign() <= 0 {
 		amt = big.NewInt(1000)
 	}
-	switch c.Rng.Intn(11) {
+	switch c.Rng.Intn(12) {
 	case 0:
 		raw := e.rawTx(&tokAddr, nil, e.packTransfer(ercContract, amt), nil)
 		e.emit(e.lockTx(ethKErcLock, owner.Addr, raw, owner), ethKErcLock+"/dup-same-block")
@@ -867,6 +897,28 @@ func (e *ethEnv) newErcLock() {
 			f.Gas = 1000
 			e.emit(core.BuildTx(&ethact.ERC20Lock{Locker: owner.Addr, ETHTxn: raw}, f, memo(c), owner), ethKErcLock+"/gas-too-low")
 		}
+	case 10: // the transfer selector and a full set of other arguments also occur earlier in the raw bytes (inside
+		// gasPrice): the hex-split parser takes receiver and amount from there. The shadow names the lock contract
+		// as receiver too (else the lock is refused), only the amount differs from the one really transferred.
+		room := rem // what the supply cap still admits, pending locks taken off
+		if room.Cmp(amt) < 0 {
+			room = amt
+		}
+		other := ethOtherAmount(c.Rng, amt, room)
+		gp := e.shadowGasPrice(e.tok.TokAbi, "transfer", ercContract, other)
+		if gp == nil {
+			return
+		}
+		raw := e.rawTx(&tokAddr, nil, e.packTransfer(ercContract, amt), gp)
+		if raw == nil {
+			return
+		}
+		e.emit(e.lockTx(ethKErcLock, owner.Addr, raw, owner), ethKErcLock+"/selector-shadow")
+		if other.Cmp(amt) < 0 {
+			other = amt
+		}
+		t := e.track(ethKErcLock, owner, raw, other) // (the larger one: pendTTC stays on the safe side)
+		t.truth, t.plan = true, "honest"
 	default:
 		switch {
 		case ethCrasherOn(c, "erclock-nil-to"):
@@ -1010,11 +1062,22 @@ func (e *ethEnv) newRedeem(kind string) bool {
 		e.emit(e.redeemTx(kind, owner.Addr, raw, owner), kind+"/wrong-contract")
 		e.track(kind, owner, raw, amt)
 	case 8: // the selector also occurs earlier in the raw bytes (inside gasPrice): the hex-split parser reads another amount
-		if amt.Sign() <= 0 || kind != ethKRedeem {
+		if amt.Sign() <= 0 {
 			return false
 		}
 		gp := new(big.Int).Lsh(big.NewInt(0xdb006a75), 224) // db006a75 followed by 28 zero bytes
+		if kind == ethKErcRedeem {
+			// redeem(uint256,address) takes amount AND token from behind the first selector: the shadow is a
+			// complete call with the same (listed) token and another amount the owner can still pay
+			gp = e.shadowGasPrice(e.opt.ERCContractABI, "redeem", ethOtherAmount(c.Rng, amt, bal), e.tok.TokAddr)
+			if gp == nil {
+				return false
+			}
+		}
 		raw := e.rawTx(&contract, value, pack(amt), gp)
+		if raw == nil {
+			return false
+		}
 		e.emit(e.redeemTx(kind, owner.Addr, raw, owner), kind+"/selector-shadow")
 		e.track(kind, owner, raw, amt)
 	default:
